@@ -222,10 +222,17 @@ def run(ctx, ck):
     from ..symx import SymExec
     from ..poly import poly_roles, cancel, Poly
     for (cls, op), (attrs, param) in sorted(expect.items()):
-        g = m.func('mininec.%s.%s' % (cls, op))
+        # the method an object of the class runs (defined in the class or inherited), walked for that class:
+        # hooks it calls on self are the ones of the class
+        g = m.resolve_method(cls, op)
+        if g is None:
+            raise AnalysisError('anchor vanished: %s has no method %s' % (cls, op))
+        gkey = 'mininec.%s.%s' % (cls, op)
         cache_fn = m.resolve_method(cls, 'compute_endpoints')
-        paths = [p_ for p_ in SymExec(ctx, g, effects=True, max_paths=2000,
-                                      no_expand={cache_fn.qual} if cache_fn is not None else ()).run() if p_.end != 'raise']
+        sx_ = SymExec(ctx, g, effects=True, max_paths=2000, depth=3,
+                      no_expand={cache_fn.qual} if cache_fn is not None else ())
+        sx_.self_cls = cls
+        paths = [p_ for p_ in sx_.run() if p_.end != 'raise']
         miss, wrong, extra = [], [], []
         if not paths:
             wrong.append('no path returns normally')
@@ -275,7 +282,7 @@ def run(ctx, ck):
                     if 'end-point cache not recomputed after the update' not in wrong:
                         wrong.append('end-point cache not recomputed after the update')
         ok = not miss and not wrong and not extra
-        ck.ob('R-SIB.transform', g.qual, ok, g.loc(),
+        ck.ob('R-SIB.transform', gkey, ok, g.loc(),
               'updates %s with %s on %d paths' % (sorted(attrs), param, len(paths)) if ok else
               'missing %s wrong %s extra %s' % (miss, wrong, extra))
     # geometric attributes of the classes: constructor assigns exactly the point attributes above
